@@ -8,8 +8,9 @@ Property theorems only (helper lemmas: `Proofs/Wallet.lean`; model: `Model/Walle
 
 An *operation sequence* is any `List Op` (create / import / delete / set default / relabel / change password / change scheme /
 reopen, valid or not) run from a wallet that satisfies the invariant — in particular from a fresh one (`C38_fresh`) or one
-opened from a file with any scrypt parameters and no accounts (`C38_opened_empty`). Theorems are for `Variant.sound` (the
-code with `fixes/C38-*.patch` applied); for the code as shipped the `_partial` theorem and four counterexamples are given.
+opened from a file with any scrypt parameters and no accounts (`C38_opened_empty`). The model is the code as it is now, i.e.
+after the four repairs this property led to; the four former counterexamples are kept as regression witnesses
+(`C38_witness_*`, and `corpus/C38/`).
 -/
 namespace OntVerif.Props.C38
 open OntVerif.Model.Wallet OntVerif.Proofs.Wallet
@@ -24,7 +25,7 @@ an address (non-empty label) is indexed iff a listed account carries it — so a
 `GetAccountNum` is the list length, the default pointer is exactly the listed account flagged default, a non-empty wallet has
 one, every list entry is a live object, and every record is the encryption of its (ghost) key under its (ghost) password. -/
 theorem C38_index_consistent (w0 : W cr) (h0 : Inv w0) (ops : List Op) :
-    let w := W.run .sound w0 ops
+    let w := W.run w0 ops
     (∀ ad id, lk w.byAddr ad = some id ↔ (id ∈ w.list ∧ ∃ a, w.deref id = some a ∧ a.addr = ad)) ∧
     (∀ l id, lk w.byLabel l = some id ↔ (l ≠ "" ∧ id ∈ w.list ∧ ∃ a, w.deref id = some a ∧ a.label = l)) ∧
     (∀ id, w.dflt = some id ↔ (id ∈ w.list ∧ ∃ a, w.deref id = some a ∧ a.isDefault = true)) ∧
@@ -42,25 +43,24 @@ theorem C38_index_consistent (w0 : W cr) (h0 : Inv w0) (ops : List Op) :
 saved) changes nothing observable: account count, metadata by index / address / label, the default account, and for every
 index and password whether — and to which key — the account opens. -/
 theorem C38_reload (w0 : W cr) (h0 : Inv w0) (ops : List Op) :
-    obs (W.run .sound w0 ops).reload = obs (W.run .sound w0 ops) := by
+    obs (W.run w0 ops).reload = obs (W.run w0 ops) := by
   have h := run_inv h0 ops
   obtain ⟨h1, h2, h3⟩ := reload_spec h
   exact obs_of_records h1.idx h.idx h3 h2
 
-/-- the file holds exactly the listed records after every operation sequence — for every combination of repairs, the code as
-shipped included (`_partial`: this is the part of the reload property that survives the defects) -/
-theorem C38_file_mirrors_list_partial (v : Variant) (w0 : W cr) (h0 : FileOK w0) (ops : List Op) :
-    FileOK (W.run v w0 ops) := by
+/-- the file holds exactly the listed records after every operation sequence (every successful mutation saves); this needs
+no index invariant, so it also holds from a wallet file whose records are not well indexed (e.g. hand-edited duplicates) -/
+theorem C38_file_mirrors_list (w0 : W cr) (h0 : FileOK w0) (ops : List Op) : FileOK (W.run w0 ops) := by
   induction ops generalizing w0 with
   | nil => exact h0
-  | cons op r ih => exact ih _ (step_fileOK v h0 op)
+  | cons op r ih => exact ih _ (step_fileOK h0 op)
 
 /-- **Password (all operation sequences).** Under the ideal-cipher law every listed account that is encrypted under the
 wallet's parameters (all created ones; imported ones unless the caller handed in a record made for other parameters) opens
 with exactly one password — its current one (`gPw`: the creation/import password, replaced by `new` on every successful
 `ChangePassword`) — and then yields its own key (`gSk`); every other password, and the empty one, is refused. -/
 theorem C38_password (hI : cr.Ideal) (w0 : W cr) (h0 : Inv w0) (ops : List Op) :
-    let w := W.run .sound w0 ops
+    let w := W.run w0 ops
     ∀ i a, w.records[i]? = some a → a.gPrm = w.prm →
       ∀ pw, w.openIndex i pw = some (if pw = a.gPw ∧ pw ≠ 0 then some a.gSk else none) := by
   intro w i a hi hp pw
@@ -82,7 +82,7 @@ theorem C38_password (hI : cr.Ideal) (w0 : W cr) (h0 : Inv w0) (ops : List Op) :
 
 /-- the same after reopening the wallet -/
 theorem C38_password_after_reload (hI : cr.Ideal) (w0 : W cr) (h0 : Inv w0) (ops : List Op) :
-    let w := W.run .sound w0 ops
+    let w := W.run w0 ops
     ∀ i a, w.records[i]? = some a → a.gPrm = w.prm →
       ∀ pw, w.reload.openIndex i pw = some (if pw = a.gPw ∧ pw ≠ 0 then some a.gSk else none) := by
   intro w i a hi hp pw
@@ -95,7 +95,7 @@ theorem C38_password_after_reload (hI : cr.Ideal) (w0 : W cr) (h0 : Inv w0) (ops
 required the current password and leaves an account that carries the old key, the new (non-empty) password and the wallet's
 parameters -/
 theorem C38_changePassword_spec (hI : cr.Ideal) (w : W cr) (h : Inv w) (addr old new salt : Nat) (w' : W cr)
-    (hr : w.changePassword .sound addr old new salt = (.ok, w')) (hne : old ≠ new) :
+    (hr : w.changePassword addr old new salt = (.ok, w')) (hne : old ≠ new) :
     ∃ id a a', lk w.byAddr addr = some id ∧ w.deref id = some a ∧ w'.deref id = some a' ∧
       a.gPw = old ∧ a.gPrm = w.prm ∧ a'.gSk = a.gSk ∧ a'.gPw = new ∧ a'.gPrm = w.prm ∧ new ≠ 0 ∧ a'.addr = a.addr := by
   unfold W.changePassword at hr
@@ -127,10 +127,10 @@ theorem C38_changePassword_spec (hI : cr.Ideal) (w : W cr) (h : Inv w) (addr old
                 hl, ha, ?_, hc.1.symm, hc.2.symm, rfl, rfl, rfl, ?_, rfl⟩
               · show (w.setObj id _).deref id = _
                 rw [deref_setObj]; simp
-              · intro e; exact hnz ⟨rfl, e⟩
+              · exact hnz
             · cases hk
 
-/-! ### The code as shipped -/
+/-! ### Concrete wallets and regression witnesses -/
 
 def initW (prm : Nat) : W Crypto.symbolic := if prm = 0 then W.fresh _ else W.load (some (prm, []))
 
@@ -138,39 +138,32 @@ theorem C38_symbolic_ideal : Crypto.symbolic.Ideal := by
   intro k p s m p' m'
   simp [Crypto.symbolic]
 
-/-- the full reload statement, per variant -/
-def C38_reload_statement (v : Variant) : Prop :=
-  ∀ (prm : Nat) (ops : List Op), obs (W.run v (initW prm) ops).reload = obs (W.run v (initW prm) ops)
-
-theorem C38_reload_sound : C38_reload_statement .sound := by
-  intro prm ops
+/-- the reload theorem for the wallets the harness starts from: no file yet, or a file with any scrypt parameter set -/
+theorem C38_reload_all_wallets (prm : Nat) (ops : List Op) :
+    obs (W.run (initW prm) ops).reload = obs (W.run (initW prm) ops) := by
   apply C38_reload
   unfold initW
   split
   · exact Inv.fresh
   · exact Inv.load_empty prm
 
-/-- as shipped: importing the same address twice and deleting it leaves the index and the file in disagreement -/
-theorem C38_asShipped_counterexample : ¬ C38_reload_statement .asShipped := by
-  intro h
-  have := congrArg Obs.num (h 1 [.imp "a" 0 1 1 1 1 1 1, .imp "b" 0 1 2 1 1 2 1, .del 1 2])
-  revert this
-  decide
+/-- witness 1 (was: duplicate-address import + delete broke reload): the second import of an address is refused -/
+theorem C38_witness_duplicate_address :
+    ((W.run (initW 1) [.imp "a" 0 1 1 1 1 1 1]).step (.imp "b" 0 1 2 1 1 2 1)).1 = .dupAddr := by decide
 
-/-- as shipped: `NewAccount` in a wallet whose file carries non-default scrypt parameters makes an account that its own
-password does not open -/
-theorem C38_asShipped_counterexample_newaccount :
-    (W.run .asShipped (initW 1) [.new "a" 1 7 1001 1001 1]).openIndex 0 7 = some none := by decide
+/-- witness 2 (was: NewAccount ignored the wallet's scrypt parameters): the new account opens with its password -/
+theorem C38_witness_newaccount :
+    (W.run (initW 1) [.new "a" 1 7 1001 1001 1]).openIndex 0 7 = some (some 1001) := by decide
 
-/-- as shipped: `ChangePassword` to the empty password succeeds and the account never opens again -/
-theorem C38_asShipped_counterexample_emptypw :
-    let w := W.run .asShipped (initW 1) [.imp "a" 0 1 1 1 1 1 1, .changePw 1 1 0 2]
-    (w.records.map (·.gPw)) = [0] ∧ w.openIndex 0 0 = some none ∧ w.openIndex 0 1 = some none := by decide
+/-- witness 3 (was: ChangePassword to the empty password bricked the account): refused, the old password still opens -/
+theorem C38_witness_empty_password :
+    let w := W.run (initW 1) [.imp "a" 0 1 1 1 1 1 1]
+    (w.step (.changePw 1 1 0 2)).1 = .emptyPw ∧ (w.step (.changePw 1 1 0 2)).2.openIndex 0 1 = some (some 1) := by decide
 
-/-- as shipped: `SetLabel(a, "")` indexes the empty label; the live wallet then refuses what the reopened one accepts -/
-theorem C38_asShipped_counterexample_emptylabel :
-    let w := W.run .asShipped (initW 1) [.imp "a" 0 1 1 1 1 1 1, .imp "b" 0 1 1 2 2 2 1, .setLabel 1 ""]
-    (w.setLabel .asShipped 2 "").1 = .dupLabel ∧ (w.reload.setLabel .asShipped 2 "").1 = .ok := by decide
+/-- witness 4 (was: SetLabel(a, "") poisoned the label index): a second account can drop its label too -/
+theorem C38_witness_empty_label :
+    let w := W.run (initW 1) [.imp "a" 0 1 1 1 1 1 1, .imp "b" 0 1 1 2 2 2 1, .setLabel 1 ""]
+    (w.setLabel 2 "").1 = .ok ∧ (w.reload.setLabel 2 "").1 = .ok := by decide
 
 /-! ### Non-vacuity -/
 def demoOps : List Op :=
@@ -178,7 +171,7 @@ def demoOps : List Op :=
 
 /-- a history with a renamed duplicate label, a password change, a default move and a delete: one account `a_1` left,
 default, opening with password 3 only, to key 2 -/
-example : let w := W.run .sound (initW 1) demoOps
+example : let w := W.run (initW 1) demoOps
     (w.records.map fun a => (a.addr, a.label, a.isDefault, a.gPw, a.gPrm)) = [(2, "a_1", true, 3, 1)] ∧
     w.openIndex 0 3 = some (some 2) ∧ w.openIndex 0 2 = some none := by decide
 example : Inv (initW 1) := Inv.load_empty 1
